@@ -1,6 +1,8 @@
 package sym
 
 import (
+	"os"
+	"time"
 	"fmt"
 	"go/token"
 	"go/types"
@@ -223,7 +225,7 @@ func (m *Machine) hashBytes(ts []*Term) Value {
 		if t, ok := m.hashVars[key]; ok {
 			return t
 		}
-		t := m.newVar("hash_"+fmt.Sprintf("%x", b), "u64", 64)
+		t := m.newVar(fmt.Sprintf("%x", b), "hash", 64)
 		for _, prev := range m.hashApps {
 			// distinct byte strings (of whatever length) get distinct hashes
 			m.assertPC(BNot(Cmp(OpEq, prev.res, t)))
@@ -234,7 +236,7 @@ func (m *Machine) hashBytes(ts []*Term) Value {
 		return t
 	}
 	// symbolic bytes: fresh value, equal to an earlier application iff the bytes are equal
-	t := m.newVar(fmt.Sprintf("hash_sym%d", len(m.hashApps)), "u64", 64)
+	t := m.newVar(fmt.Sprintf("sym%d", len(m.hashApps)), "hash", 64)
 	for _, prev := range m.hashApps {
 		same := falseT
 		if len(prev.bytes) == len(ts) {
@@ -315,17 +317,53 @@ func (m *Machine) errorsIs(fr *frame, err, target Iface) Value {
 
 func (m *Machine) sortSlice(fr *frame, x Iface, less Value) {
 	s := x.v.(Slice)
-	// insertion sort calling the real less closure; each comparison may fork
 	n := s.len
-	for i := 1; i < n; i++ {
-		for j := i; j > 0; j-- {
-			r := m.call(fr, token.NoPos, less, []Value{K(64, uint64(j)), K(64, uint64(j-1))}).(*Term)
-			if !m.branch(r) {
-				break
-			}
-			a, b := s.At(j), s.At(j-1)
-			*a, *b = *b, *a
+	if n < 2 {
+		return
+	}
+	// sort.Slice calls less(i, j) on the slice being permuted. We sort a permutation with a
+	// merge sort whose comparisons are made by placing the two candidates into the slice
+	// positions 0 and 1 temporarily would disturb aliasing, so instead the elements are kept
+	// in place and less is asked about original indices while they still hold the original
+	// elements; the permutation is applied at the end. Each comparison may fork.
+	idx := make([]int, n)
+	for i := range idx {
+		idx[i] = i
+	}
+	lessIdx := func(a, b int) bool {
+		r := m.call(fr, token.NoPos, less, []Value{K(64, uint64(a)), K(64, uint64(b))}).(*Term)
+		return m.branch(r)
+	}
+	var msort func(a []int) []int
+	msort = func(a []int) []int {
+		if len(a) < 2 {
+			return a
 		}
+		mid := len(a) / 2
+		l := msort(append([]int(nil), a[:mid]...))
+		r := msort(append([]int(nil), a[mid:]...))
+		out := make([]int, 0, len(a))
+		i, j := 0, 0
+		for i < len(l) && j < len(r) {
+			if lessIdx(r[j], l[i]) {
+				out = append(out, r[j])
+				j++
+			} else {
+				out = append(out, l[i])
+				i++
+			}
+		}
+		out = append(out, l[i:]...)
+		out = append(out, r[j:]...)
+		return out
+	}
+	perm := msort(idx)
+	orig := make([]Value, n)
+	for i := 0; i < n; i++ {
+		orig[i] = *s.At(i)
+	}
+	for i, p := range perm {
+		*s.At(i) = orig[p]
 	}
 }
 
@@ -384,6 +422,36 @@ func (p *Program) installVerif() {
 	v["verifIte64"] = func(fr *frame, a []Value) Value { return Ite(a[0].(*Term), a[1].(*Term), a[2].(*Term)) }
 	v["verifStrEq"] = func(fr *frame, a []Value) Value { return StrEq(a[0].(Str), a[1].(Str)) }
 	v["verifStrLt"] = func(fr *frame, a []Value) Value { return StrLt(a[0].(Str), a[1].(Str)) }
+	// verifValid(c): does c hold for every value of the symbolic inputs on this path?
+	// (decided by the solver: unsat of pc ∧ ¬c). Natively it is c itself.
+	v["verifValid"] = func(fr *frame, a []Value) Value {
+		m := fr.m
+		c := a[0].(*Term)
+		if c.IsConst() {
+			return c
+		}
+		if m.replaying() {
+			d := m.prefix[m.dpos]
+			m.dpos++
+			m.decisions = append(m.decisions, d)
+			return KB(d&^forcedBit == 1)
+		}
+		r := m.sol.Check(BNot(c))
+		if r == Unknown {
+			r = m.sol.Portfolio(BNot(c), m.cfg.PortfolioSec)
+		}
+		res := int32(0)
+		switch r {
+		case Unsat:
+			res = 1
+		case Sat:
+		default:
+			m.inconcl = append(m.inconcl, "verifValid undecided")
+		}
+		m.decisions = append(m.decisions, res|forcedBit)
+		m.dpos++
+		return KB(res == 1)
+	}
 	v["verifTier"] = func(fr *frame, a []Value) Value { return K(64, uint64(fr.m.cfg.Tier)) }
 	v["verifSymbolic"] = func(fr *frame, a []Value) Value { return trueT }
 	v["verifBytes"] = func(fr *frame, a []Value) Value {
@@ -435,6 +503,7 @@ func (p *Program) installVerif() {
 	v["verifTrace"] = func(fr *frame, a []Value) Value {
 		if fr.m.cfg.Trace {
 			fr.m.trace = append(fr.m.trace, showValue(a[0])+" "+showValue(a[1]))
+			fmt.Fprintf(os.Stderr, "TRACE %.1fs steps=%d %s %s\n", time.Since(fr.m.pathStart).Seconds(), fr.m.steps, showValue(a[0]), showValue(a[1]))
 		}
 		return nil
 	}
@@ -454,10 +523,26 @@ func (m *Machine) card(x *Term) *Term {
 	}
 	r := UF("card", 64, x)
 	m.cardApps = append(m.cardApps, cardApp{arg: x, res: r})
-	m.assertPC(Cmp(OpEq, Cmp(OpEq, r, K(64, 0)), Cmp(OpEq, x, K(64, 0))))
-	m.assertPC(Cmp(OpUle, r, K(64, 64)))
+	// card(x)=0 <=> x=0 is applied as a rewrite in Cmp (term.go); card(x) <= 64 is added to
+	// assertion obligations only (cardBounds), keeping branch queries free of the UF.
 	m.noteOnce("model: cardinality is an uninterpreted function of the 64-bit row set with card(x)=0<=>x=0, card(x)<=64; counterexamples are re-solved with true popcount")
 	return r
+}
+
+// cardBounds returns the conjunction of the range axioms of all cardinality applications.
+func (m *Machine) cardBounds() *Term {
+	if m.cardBoundT == nil {
+		m.cardBoundT = trueT
+	}
+	for ; m.cardBoundN < len(m.cardApps); m.cardBoundN++ {
+		ca := m.cardApps[m.cardBoundN]
+		r := Cmp(OpUle, ca.res, K(64, 64))
+		// raw form of card(x)=0 <=> x=0 (Cmp would rewrite it away)
+		raw := &Term{op: OpEq, w: 0, args: []*Term{ca.res, K(64, 0)}}
+		r = BAnd(r, Cmp(OpEq, raw, Cmp(OpEq, ca.arg, K(64, 0))))
+		m.cardBoundT = BAnd(m.cardBoundT, r)
+	}
+	return m.cardBoundT
 }
 
 func (m *Machine) sizeUF(x *Term) *Term {
